@@ -148,6 +148,10 @@ func writeFanOut(r *hx.Rng) []hx.Zs {
 }
 
 func gen(r *hx.Rng, tier string, i int) []hx.Zs {
+	if i%7 == 2 {
+		// a delete call of one peer overlapped by a subscribe call of another (atomicity of RemoveSubscription)
+		return stack.DeleteOverlap(r, false)
+	}
 	if i%7 == 5 {
 		// two peers that cannot be told apart by address delete their own and each other's subscriptions
 		return stack.Twins(r, false)
@@ -327,5 +331,12 @@ func main() {
 		NewImpl: stack.NewImpl,
 		Gen:     gen,
 		Count:   map[string]int{"quick": 300, "thorough": 8000},
+		Extra: func() map[string]any {
+			m := map[string]int{}
+			for k, v := range stack.OverlapStats() {
+				m["observed-overlap-"+k] = v
+			}
+			return map[string]any{"generated": m}
+		},
 	})
 }
